@@ -444,7 +444,8 @@ class HistoryStream(Stream):
         for i, v in enumerate(r["verdicts"]):
             stale = r["applied"][i] >= first_stale
             for e in v:
-                sig = "C10/%s/%s" % (e, "stale-requirer-history" if stale else case["mode"] + "-alphabet")
+                # (links that stay behind when an extra is no longer requested are the recorded finding D17 in any history)
+                sig = "C10/%s/%s" % (e, "stale-requirer-history" if stale and e != "edge-stale-extra" else case["mode"] + "-alphabet")
                 if sig not in seen:
                     seen.add(sig)
                     fails.append((sig, {"after_op": r["applied"][i], "op": case["ops"][r["applied"][i]]}))
